@@ -37,7 +37,7 @@ def content_bytes(cid):
 def generate(rng, i, tier):
     long = rng.random() < 0.125
     n = rng.randint(9, 25) if long else rng.randint(3, 8)
-    weights = {"write": rng.choice([2, 3, 4]), "add": rng.choice([3, 4, 6]), "remove": rng.choice([0, 1, 1, 2]), "restart": rng.choice([0, 1, 2])}
+    weights = {"write": rng.choice([2, 3, 4]), "add": rng.choice([3, 4, 6]), "remove": rng.choice([0, 1, 1, 2]), "restart": rng.choice([0, 1, 2]), "add_bad": rng.choice([0, 0, 1])}
     kinds = [k for k, w in weights.items() for _ in range(w)]
     srcs = rng.sample(SOURCES, rng.randint(2, 5))
     opsl = []
@@ -57,6 +57,9 @@ def generate(rng, i, tier):
             opsl.append({"op": "add", "name": rng.choice(NAMES), "src": rng.choice(srcs)})
         elif k == "remove":
             opsl.append({"op": "remove", "name": rng.choice(NAMES)})
+        elif k == "add_bad":
+            # a registration that must fail (the source does not exist): the store must be left as it was
+            opsl.append({"op": "add_bad", "name": rng.choice(NAMES), "src": rng.choice(["d9/gone.csv", "d0/never-written.csv", "d0"])})
         else:
             opsl.append({"op": "restart"})
     return {"seed": rng.getrandbits(32), "listdir_salt": rng.choice([None, rng.getrandbits(16), rng.getrandbits(16)]), "ops": opsl}
@@ -233,6 +236,21 @@ def execute(sc):
                     cs.file_manager.remove_named_file(op["name"])
                 del model[op["name"]]
                 cls.append(op["name"])
+            elif k == "add_bad":
+                try:
+                    with ops.quiet():
+                        cs.file_manager.add_named_file(name=op["name"], path=os.path.join("src", op["src"]))
+                    out.v("bad_add_accepted", f"step {step}: add_named_file of the non-existent/unsuitable source src/{op['src']} did not fail")
+                except Exception as e:  # noqa: BLE001
+                    if not ops.in_repo(e) and not isinstance(e, (OSError,)):
+                        raise
+                out.fault("failed_registration")
+                cls.append(op["name"] + ("-known" if op["name"] in model else "-unknown"))
+                if op["name"] not in model:
+                    # a failed first registration may leave an empty home behind; the statement says nothing about it
+                    import shutil
+
+                    shutil.rmtree(os.path.join("inputs", "named_files", op["name"]), ignore_errors=True)
             elif k == "restart":
                 cs = ops.new_csvpaths()
                 age = -1
